@@ -328,7 +328,7 @@ PROPS = {
              "(5) threads on disjoint trees; every interleaving of the 2-3 real threads at shared-memory-access granularity with at most p preemptions (stateless DFS with prefix replay, one process "
              "per execution); oracle per schedule: destroyed exactly once, 'freed' reported exactly once, no access inside a freed block, equal hashes in all threads at all times, plus a "
              "vector-clock happens-before race monitor; then the same bodies free-running under the real ThreadSanitizer runtime; non-trivial = distinct schedule with >= 1 preemption",
-        bound=dict(quick="2 threads: 2 preemptions; 3 threads: 1 preemption; 60 free runs per configuration", thorough="2 threads: 4 preemptions (3 for the child variant); 3 threads: 2-3 preemptions; 300 free runs per configuration"),
+        bound=dict(quick="2 threads: 2 preemptions; 3 threads: 1 preemption; 60 free runs per configuration", thorough="2 threads: 5 preemptions (4 for the child variant); 3 threads: 3-4 preemptions; 300 free runs per configuration"),
         states_stat="schedules", transitions_stat="scheduling_points",
         technique="stateless model checking of the real threaded code: preemption-bounded exhaustive schedule exploration over tsan-pass-instrumented accesses with own scheduler and HB race monitor; real TSan free run as cross-check",
         claim="every schedule within the preemption bound was executed on the real objects: no lost reference-count update, exactly one destruction after the last release, a single published hash "
